@@ -61,6 +61,10 @@ func (f *fmt) clearflags() {
 func (f *fmt) init(buf *buffer) {
 	f.buf = buf
 	f.clearflags()
+	// Width() and Precision() report these numbers even when not
+	// present: do not let them carry over from an earlier use of a
+	// recycled printer.
+	f.wid, f.prec = 0, 0
 }
 
 // writePadding generates n bytes of padding.
